@@ -17,18 +17,18 @@ CLAIMS["C01"] = dict(
   ref="DESIGN.md §3 C01")
 
 CLAIMS["C09"] = dict(
-  text="All-paths rules over the walk callback, the recursive walker, the dispatch function, StatusFromErr and Scan: errors derived from file-system operations abort the walk only under errorOnFSErrors and do abort it then; listing/stat failures are reported to the callback with the error and the walker never originates SkipDir; the DirEntry is only touched when fserr==nil; failed Open/Stat/Extract are recorded under the running extractor's name on every path; statuses are built per configured extractor from maps keyed by its name, failed vs partially-succeeded follows 'partial'; the lazy stat cache cannot keep a stale error; Run errors always reach the overall status; the gitignore pop is guarded. Level 'other': necessary conditions for every fault sequence; which files are extracted under a fault is not decided.",
+  text="All-paths rules over the walk callback, the recursive walker, the dispatch function, StatusFromErr and Scan: errors derived from file-system operations abort the walk only under errorOnFSErrors and do abort it then; listing/stat failures are reported to the callback with the error and the walker never originates SkipDir; the DirEntry is only touched when fserr==nil; failed Open/Stat/Extract are recorded under the running extractor's name on every path; statuses are built per configured extractor from maps keyed by its name, failed vs partially-succeeded follows 'partial'; the lazy stat cache cannot keep a stale error; Run errors always reach the overall status; the gitignore pop is guarded. Also: D1 additionally: once fserr != nil a return that does not carry it is reachable only through the errorOnFSErrors == false edge. Level 'other': necessary conditions for every fault sequence; which files are extracted under a fault is not decided.",
   note="Trusted: go/ssa CFG and def-use; error provenance follows fmt.Errorf/errors.Join arguments, phis and locals only.",
   technique="error-provenance dataflow + edge dominance + must-pass-through on SSA",
   ref="DESIGN.md §3 C09")
 CLAIMS["C10"] = dict(
-  text="All-paths rules: the inode counter is incremented and compared ('> limit', limit>0, after the increment) before any other work of the callback and the failing edge returns an error; every dispatch is behind 'limit off' or a passed 'size > limit' comparison on the symlink-following lazy Stat size, and the memoised size can only hold a passed value; ctx.Err() is tested before per-file work and inside the standalone/detector plugin loops and its error is returned; layer files are written through io.LimitReader(MaxFileBytes), rejected at '>= limit', never inserted after a failure; unpack checks the header size before reading. Level 'other': the comparison operators and their placement are decided for all inputs; counts over concrete trees and cancellation inside an extraction are not.",
+  text="All-paths rules: the inode counter is incremented and compared ('> limit', limit>0, after the increment) before any other work of the callback and the failing edge returns an error; every dispatch is behind 'limit off' or a passed 'size > limit' comparison on the symlink-following lazy Stat size, and the memoised size can only hold a passed value; ctx.Err() is tested before per-file work and inside the standalone/detector plugin loops and its error is returned; layer files are written through io.LimitReader(MaxFileBytes), rejected at '>= limit', never inserted after a failure; unpack checks the header size before reading. Also: D1 additionally: the visit counter is written only by its increment (never reset per scan root). Level 'other': the comparison operators and their placement are decided for all inputs; counts over concrete trees and cancellation inside an extraction are not.",
   note="Trusted: go/ssa; comparison normal forms (operand order / negation) as listed in DESIGN.md §2.1; os.File/io API contracts.",
   technique="edge dominance with normalised comparison patterns, phi provenance for the memoised size",
   ref="DESIGN.md §3 C10")
 
 CLAIMS["C08"] = dict(
-  text="All-paths rules: every Scan return goes through newScanResult, which sorts statuses, packages, findings and each package's locations unconditionally with the right comparators; the comparators compare the same key of both operands (operand-mirror rule) and cover the documented keys; the walk context's per-root result fields are re-initialised with fresh values before every root's walk and Run appends exactly that root's inventory once; Inventory.Append carries packages and findings; the gitignore pattern stack is balanced over every directory (a directory returning nil or SkipDir has pushed exactly once, the pop removes one under the same conditions). Level 'other': necessary conditions for order- and root-count-independence; equality of multisets over permutations is not decided.",
+  text="All-paths rules: every Scan return goes through newScanResult, which sorts statuses, packages, findings and each package's locations unconditionally with the right comparators; the comparators compare the same key of both operands (operand-mirror rule) and cover the documented keys; the walk context's per-root result fields are re-initialised with fresh values before every root's walk and Run appends exactly that root's inventory once; Inventory.Append carries packages and findings; the gitignore pattern stack is balanced over every directory (a directory returning nil or SkipDir has pushed exactly once, the pop removes one under the same conditions). Also: D3 additionally: no decision in Run skips a scan root, and the per-extractor found-inventory flag is only ever set to true. Level 'other': necessary conditions for order- and root-count-independence; equality of multisets over permutations is not decided.",
   note="Trusted: go/ssa; access-path rendering of pure operands; slices.SortFunc/sort.Strings contracts.",
   technique="must-pass-through, operand-mirror (access path) comparison, reset-on-all-paths, push/pop pairing on SSA",
   ref="DESIGN.md §3 C08")
@@ -39,13 +39,13 @@ CLAIMS["C20"] = dict(
   ref="DESIGN.md §3 C20")
 
 CLAIMS["C07"] = dict(
-  text="Panic-freedom discipline and comparator shape over all of package semantic: every index/slice expression is proved in bounds by a difference-constraint prover (facts from dominating branches, strings/regexp/builtin API contracts, loop counters, call-site facts of unexported helpers) or is an audited site with a stated data invariant (with machine-checked witnesses where the invariant rests on a particular guard); nil-on-failure results are never used with their ok/err discarded; Parse and each version type's CompareStr use the same parse function and forward its error; comparators compare the same key of both operands and return negated constants in mirrored branches. Level 'other': necessary conditions for 'never panics' and antisymmetry; transitivity and agreement with published orderings are value-level and not decided.",
+  text="Panic-freedom discipline and comparator shape over all of package semantic: every index/slice expression is proved in bounds by a difference-constraint prover (facts from dominating branches, strings/regexp/builtin API contracts, loop counters, call-site facts of unexported helpers) or is an audited site with a stated data invariant (with machine-checked witnesses where the invariant rests on a particular guard); nil-on-failure results are never used with their ok/err discarded; Parse and each version type's CompareStr use the same parse function and forward its error; comparators compare the same key of both operands and return negated constants in mirrored branches. Also: D5 numeric components are never parsed with fixed-width strconv parsing (every numeric test goes through big.Int). Level 'other': necessary conditions for 'never panics' and antisymmetry; transitivity and agreement with published orderings are value-level and not decided.",
   note="Trusted: go/ssa, the API contract table (strings.Split>=1, Index bounds, regexp sub-match counts from the constant patterns via regexp/syntax), audited sites (14 index/slice + 1 SetString) read by hand; loads of the same field path are assumed stable between a dominating test and its use.",
   technique="difference-constraint bounds prover on SSA + audited table, parse/compare agreement table, operand-mirror and mirrored-branch rules",
   ref="DESIGN.md §3 C07")
 
 CLAIMS["C02"] = dict(
-  text="Panic-freedom discipline over every first-party function reachable from the methods of the 57 registered offline filesystem extractors (three GOOS configurations in the thorough tier): index/slice expressions proved in bounds or audited with invariant and witnesses; JSON/YAML-decoded pointers (top-level, fields, slice/map elements, followed through first-party calls) nil-tested before dereference; no ok/err-discarded nil-on-failure results; single-value type assertions only on Package.Metadata or audited; no possibly-nil *Package appended to a result; plus failure confinement in the engine (errors of Open/Stat/Extract recorded per extractor, dispatch returns nothing). Level 'other': a necessary discipline for 'never panics'; termination, time/memory bounds, third-party parser internals and nil dereferences in general are not decided.",
+  text="Panic-freedom discipline over every first-party function reachable from the methods of the 57 registered offline filesystem extractors (three GOOS configurations in the thorough tier): index/slice expressions proved in bounds or audited with invariant and witnesses; JSON/YAML-decoded pointers (top-level, fields, slice/map elements, followed through first-party calls) nil-tested before dereference; no ok/err-discarded nil-on-failure results; single-value type assertions only on Package.Metadata or audited; no possibly-nil *Package appended to a result; plus failure confinement in the engine (errors of Open/Stat/Extract recorded per extractor, dispatch returns nothing). Also: D4 termination structure — every recursive function reachable from an extractor is in an audited table with its termination argument and, where checkable, a witness (depth limit compared on entry and passed +1; byte budget compared, passed down and assigned back; recursion on a strict part of the argument), and a map consulted as a visited set inside a loop is updated with the very key looked up. Level 'other': a necessary discipline for 'never panics'; termination, time/memory bounds, third-party parser internals and nil dereferences in general are not decided.",
   note="Trusted: go/ssa, CHA reachability, the API contract table, 6 audited index/slice sites and 2 audited assertions (listed with reasons in evidence), encoding/xml and toml never leaving nil pointers.",
   technique="difference-constraint bounds prover, decode-nil taint analysis, assertion/ok-discard lints over the reachable call graph",
   ref="DESIGN.md §3 C02")
@@ -63,59 +63,59 @@ CLAIMS["C15"] = dict(
   ref="DESIGN.md §3 C15")
 
 CLAIMS["C11"] = dict(
-  text="Shape of the three candidate scans, decided from source for all inputs: every version that can become the chosen one (override: flows into Manifest.PatchRequirement; relax: into the requirement NpmRelaxer.Relax returns; update: into the requirement suggestMavenVersion returns) is committed only on paths that, since that candidate was defined, crossed the true edge of Level.Allows(L, D) with D the semver Difference between the base and that same candidate; L is Config.Get(options' UpgradeConfig, Name of the package whose base version D was measured from); the base is the loop's vulnerable version key and candidates are elements of getVersionsGreater(that key) (one comparator for sort and search) in override, the MatchVersion-witnessed index of a downward scan over the comparator-sorted list (or an already level-checked step) in relax, the parsed requirement or a MatchVersion-witnessed version in update where candidates below the base are skipped; level None is skipped before any candidate; relax.patchVulns and MavenSuggester.Suggest patch/report exactly the level-checked result with the configured UpgradeConfig. Level 'other': these are necessary conditions; ecosystem order properties, what a requirement resolves to in a universe, re-resolution effects and termination of the fixpoint loops are not decided.",
+  text="Shape of the three candidate scans, decided from source for all inputs: every version that can become the chosen one (override: flows into Manifest.PatchRequirement; relax: into the requirement NpmRelaxer.Relax returns; update: into the requirement suggestMavenVersion returns) is committed only on paths that, since that candidate was defined, crossed the true edge of Level.Allows(L, D) with D the semver Difference between the base and that same candidate; L is Config.Get(options' UpgradeConfig, Name of the package whose base version D was measured from); the base is the loop's vulnerable version key and candidates are elements of getVersionsGreater(that key) (one comparator for sort and search) in override, the MatchVersion-witnessed index of a downward scan over the comparator-sorted list (or an already level-checked step) in relax, the parsed requirement or a MatchVersion-witnessed version in update where candidates below the base are skipped; level None is skipped before any candidate; relax.patchVulns and MavenSuggester.Suggest patch/report exactly the level-checked result with the configured UpgradeConfig. Also: D5 progress — from the start of a round of the override / relax fix-point loop the next round is reachable only through Manifest.PatchRequirement. Level 'other': these are necessary conditions; ecosystem order properties, what a requirement resolves to in a universe, re-resolution effects and termination of the fixpoint loops are not decided.",
   note="Trusted: go/ssa, deps.dev/util/semver Difference/Compare semantics, slices.SortFunc/BinarySearchFunc contracts.",
   technique="edge-dominance of Level.Allows over every phi edge that commits a candidate (per-candidate, since its definition) + value/cell provenance of base, candidate, level and configuration",
   ref="DESIGN.md §3 C11")
 
 CLAIMS["C12"] = dict(
-  text="Plumbing between analysis, report and written manifest, decided from source for all inputs: ConstructPatches diffs the filtered Vulns lists of the original and the patched result and computeVulnsResult reports that same list (no UnfilteredVulns mixed in); every slices.CompactFunc over a slice sorted in the same function merges exactly the elements the sort comparator calls equal, and the update comparator compares Name, VersionFrom, VersionTo and Type mirrored; reported PackageUpdates take Name/VersionTo from the patched requirement and VersionFrom from the original requirement with the same requirement key, and a requirement / patch / fixed-vulnerability is left out only under the audited decisions (frozen table: unchanged version, incompatible patches, no-introduce, failed or empty strategy result); choosePatches returns unmodified elements of allPatches; doStrategy and Update hand writeManifestPatches the very patch list they return in Result.Patches, the manifest parsed from the same path, and return its error, and writeManifestPatches passes all of it to the ReadWriter; Unactionable is 'ID absent from the Fixed IDs of all computed patches', computed from the same patch list the applied patches are chosen from; the package.json writer applies every update or fails and changes nothing else (shared with C13). Level 'other': necessary conditions; that re-resolving the written manifest yields the reported sets (resolver, matcher, PatchRequirement alias semantics) and the pom.xml writer's application of updates are not decided.",
+  text="Plumbing between analysis, report and written manifest, decided from source for all inputs: ConstructPatches diffs the filtered Vulns lists of the original and the patched result and computeVulnsResult reports that same list (no UnfilteredVulns mixed in); every slices.CompactFunc over a slice sorted in the same function merges exactly the elements the sort comparator calls equal, and the update comparator compares Name, VersionFrom, VersionTo and Type mirrored; reported PackageUpdates take Name/VersionTo from the patched requirement and VersionFrom from the original requirement with the same requirement key, and a requirement / patch / fixed-vulnerability is left out only under the audited decisions (frozen table: unchanged version, incompatible patches, no-introduce, failed or empty strategy result); choosePatches returns unmodified elements of allPatches; doStrategy and Update hand writeManifestPatches the very patch list they return in Result.Patches, the manifest parsed from the same path, and return its error, and writeManifestPatches passes all of it to the ReadWriter; Unactionable is 'ID absent from the Fixed IDs of all computed patches', computed from the same patch list the applied patches are chosen from; the package.json writer applies every update or fails and changes nothing else (shared with C13). Also: D1 additionally: every vulnerability filter is MatchVuln(*opts, v) on the caller's options object and the explicit-list expansion is stored into that object; the pom.xml writer marks a section as handled under the origin whose patches it applied (C13 D6). Level 'other': necessary conditions; that re-resolving the written manifest yields the reported sets (resolver, matcher, PatchRequirement alias semantics) and the pom.xml writer's application of updates are not decided.",
   note="Trusted: go/ssa; slices.SortFunc/CompactFunc contracts; the frozen omission table c12Sanctioned was confirmed by reading each row.",
   technique="field/value provenance between analysis, report and writer calls; comparator/equality agreement (same closure or same key set); frozen omission-decision table; path-sensitive applied-or-error rule of C13 reused",
   ref="DESIGN.md §3 C12")
 
 CLAIMS["C06"] = dict(
-  text="Effect analysis and containment rules: in all first-party code reachable from the 58 filesystem extractors and filesystem.Run the only file-system / process / database effects are the audited GetRealPath temp copy and its removal; bbolt databases are opened with ReadOnly; GetRealPath's temp directory is removed by every caller (filepath.Dir of the returned path) and on its own error exits; in unpack every MkdirAll/WriteFile/Symlink happens only after the lexical '..' rejection and a passed pathOutsideBaseDirectory(dir, fullPath) on that same path, and that check is filepath.Rel-based, rejects both '..' and '../', and treats errors as outside; layer scanning writes only Join(layer dir, cleaned name) after its '../' test, never creates links on disk, and cleans its temp directory on every error exit. Level 'other': who-may-mutate and dominance facts for all inputs; effects inside third-party code, symlink chains that become escaping through later entries, detectors and standalone extractors are not decided.",
+  text="Effect analysis and containment rules: in all first-party code reachable from the 58 filesystem extractors and filesystem.Run the only file-system / process / database effects are the audited GetRealPath temp copy and its removal; bbolt databases are opened with ReadOnly; GetRealPath's temp directory is removed by every caller (filepath.Dir of the returned path) and on its own error exits; in unpack every MkdirAll/WriteFile/Symlink happens only after the lexical '..' rejection and a passed pathOutsideBaseDirectory(dir, fullPath) on that same path, and that check is filepath.Rel-based, rejects both '..' and '../', and treats errors as outside; layer scanning writes only Join(layer dir, cleaned name) after its '../' test, never creates links on disk, and cleans its temp directory on every error exit. Also: D7 symlink.TargetOutsideRoot answers on every path with the marker test on the joined, cleaned path of the target. Level 'other': who-may-mutate and dominance facts for all inputs; effects inside third-party code, symlink chains that become escaping through later entries, detectors and standalone extractors are not decided.",
   note="Trusted: CHA reachability over first-party code, the primitive table in c06.go, third-party open modes (go-rpmdb, saferwall/pe).",
   technique="effect (who-may-call) analysis over the call graph + edge dominance of containment checks + create/clean-up pairing",
   ref="DESIGN.md §3 C06")
 
 CLAIMS["C04"] = dict(
-  text="All-paths rules over the view construction: a node enters a chain layer's tree only if that tree has nothing at the path and the ancestor scan said 'not hidden'; layers are processed newest first into chainLayers[i:]; the ancestor scan answers 'hidden' for whited-out and for non-directory ancestors (IsDir), keeps climbing over missing ancestors and says 'not hidden' only at the root; whiteouts are never listed by ReadDir and fail Stat/Read/ReadAt/Seek with ErrNotExist before the file is touched; the requirer restriction only removes rejected nodes; a tar entry is dropped only for the sanctioned reasons (so whiteouts are never filtered by the requirer); nodes shared between views are immutable. Level 'other': necessary conditions of the overlay semantics for every layer sequence; opaque whiteouts (not implemented by the code), intra-layer entry order, content equality and equivalence with the squashed unpacking are not decided.",
+  text="All-paths rules over the view construction: a node enters a chain layer's tree only if that tree has nothing at the path and the ancestor scan said 'not hidden'; layers are processed newest first into chainLayers[i:]; the ancestor scan answers 'hidden' for whited-out and for non-directory ancestors (IsDir), keeps climbing over missing ancestors and says 'not hidden' only at the root; whiteouts are never listed by ReadDir and fail Stat/Read/ReadAt/Seek with ErrNotExist before the file is touched; the requirer restriction only removes rejected nodes; a tar entry is dropped only for the sanctioned reasons (so whiteouts are never filtered by the requirer); nodes shared between views are immutable. Also: D7 chain-layer view trees are inserted into only by the guarded fill routine (and the root insert); D8 every tar entry passes populateEmptyDirectoryNodes before it is added to the views. Level 'other': necessary conditions of the overlay semantics for every layer sequence; opaque whiteouts (not implemented by the code), intra-layer entry order, content equality and equivalence with the squashed unpacking are not decided.",
   note="Trusted: go/ssa; pathtree Get/Insert/Remove contracts.",
   technique="edge dominance + must-pass-through + sanctioned-skip-edge enumeration on SSA",
   ref="DESIGN.md §3 C04")
 CLAIMS["C05"] = dict(
-  text="Structure of the attribution algorithm: the per-layer details list takes Index, DiffID and Command from the same chain layer and packages only ever get (a copy of) an element of that list; the extraction cache is keyed by (first location, view index) and written in one place; an iteration of the backward scan can return to the loop head without comparing packages only through the sanctioned 'file not in this layer' edge, otherwise it records the view as the latest scanned one after obtaining its packages; the origin is the latest scanned layer, or the first when no absence was found; the scan runs from len-2 down to 0; ScanContainer scans the last view and traces with the same chain layers. Level 'other': necessary structural conditions; validity of the skip for every history and empty-layer alignment are not decided.",
+  text="Structure of the attribution algorithm: the per-layer details list takes Index, DiffID and Command from the same chain layer and packages only ever get (a copy of) an element of that list; the extraction cache is keyed by (first location, view index) and written in one place; an iteration of the backward scan can return to the loop head without comparing packages only through the sanctioned 'file not in this layer' edge, otherwise it records the view as the latest scanned one after obtaining its packages; the origin is the latest scanned layer, or the first when no absence was found; the scan runs from len-2 down to 0; ScanContainer scans the last view and traces with the same chain layers. Also: D1 additionally: every iteration appends the record it just built for its own layer, and no iteration ends without appending. Level 'other': necessary structural conditions; validity of the skip for every history and empty-layer alignment are not decided.",
   note="Trusted: go/ssa loop/phi structure; the sanctioned skip is the filesExistInLayer false edge.",
   technique="loop-carried phi provenance (back-edge classification) + edge dominance on SSA",
   ref="DESIGN.md §3 C05")
 CLAIMS["C17"] = dict(
-  text="Termination variant and resolution discipline: the resolver's only cycle passes a loop head that returns a depth error when the hop budget is below zero, and every back edge decreases the budget by a positive constant (so at most max+1 iterations for every symlink graph); Open/Stat/ReadDir resolve the node looked up for the requested name through that resolver with the view's configured depth and answer from the resolved node; the success exit returns the current non-symlink node, a failed lookup returns its error, the cycle error needs pointer equality with the slow pointer; symlink nodes are created only when TargetOutsideRoot(virtual path, raw link name) is false; shared nodes are immutable, so resolution in one view cannot change another's. Level 'other': the hop-count/cycle classification as values is not decided.",
+  text="Termination variant and resolution discipline: the resolver's only cycle passes a loop head that returns a depth error when the hop budget is below zero, and every back edge decreases the budget by a positive constant (so at most max+1 iterations for every symlink graph); Open/Stat/ReadDir resolve the node looked up for the requested name through that resolver with the view's configured depth and answer from the resolved node; the success exit returns the current non-symlink node, a failed lookup returns its error, the cycle error needs pointer equality with the slow pointer; symlink nodes are created only when TargetOutsideRoot(virtual path, raw link name) is false; shared nodes are immutable, so resolution in one view cannot change another's. Also: D2 additionally: FS.Stat answers with resolvedNode.Stat(); D3 additionally: TargetOutsideRoot examines the joined, cleaned path on every return. Level 'other': the hop-count/cycle classification as values is not decided.",
   note="Trusted: go/ssa; symlink.TargetOutsideRoot's own lexical semantics.",
   technique="loop variant (phi step) analysis + edge dominance + who-may-write rule for node fields",
   ref="DESIGN.md §3 C17")
 
 CLAIMS["C03"] = dict(
-  text="Structural completeness rules for the twelve listed formats: every bufio.Scanner loop surfaces scanner.Err() after Scan() returned false; a record pending at end of input is still processed (dpkg header returned with io.EOF, apk record without trailing blank line, blank lines end an apk record only when it is non-empty); and in every package-appending loop the decisions after which the current record can no longer be reported are exactly the 60-odd audited omissions (frozen table, rendered by the definition of the tested value), so an added filter / de-duplication / early exit and a removed not-installed filter are both reported. Level 'other': necessary conditions; that exactly the N pairs come out for every layout (CRLF, comments, ordering, merge keys) is value-level and not decided.",
+  text="Structural completeness rules for the twelve listed formats: every bufio.Scanner loop surfaces scanner.Err() after Scan() returned false; a record pending at end of input is still processed (dpkg header returned with io.EOF, apk record without trailing blank line, blank lines end an apk record only when it is non-empty); and in every package-appending loop the decisions after which the current record can no longer be reported are exactly the 60-odd audited omissions (frozen table, rendered by the definition of the tested value), so an added filter / de-duplication / early exit and a removed not-installed filter are both reported. Also: D3-predicates — boolean helpers deciding a branch of a package loop are frozen as truth tables over their atomic tests. Level 'other': necessary conditions; that exactly the N pairs come out for every layout (CRLF, comments, ordering, merge keys) is value-level and not decided.",
   note="Trusted: go/ssa; the audited omission table c03_table.go (a behaviour-preserving rewrite of an omission condition has to be re-audited there).",
   technique="must-pass-through for scanner errors and pending records + enumeration of omission decisions against an audited table",
   ref="DESIGN.md §3 C03")
 
 CLAIMS["C18"] = dict(
-  text="Shape rules for vulns.IsAffected: positive verdicts are reachable only under equal ecosystem and equal name (range verdicts additionally only for ECOSYSTEM, or SEMVER for npm, ranges), an unknown ecosystem answers false up front; inside the loops over entries and ranges only the constant true is returned (a negative range never ends the evaluation); the events are sorted on a private copy and searched on that same slice for the package's version, both comparators put the sentinel \"0\" first and use the ecosystem comparison; an exact hit is affected iff the event is introduced/last_affected, a position between events iff a previous event exists and is introduced; index discipline proved with the BinarySearchFunc contract. Level 'other': necessary conditions of the OSV evaluation; agreement with the specification's linear scan on all event lists is not decided.",
+  text="Shape rules for vulns.IsAffected: positive verdicts are reachable only under equal ecosystem and equal name (range verdicts additionally only for ECOSYSTEM, or SEMVER for npm, ranges), an unknown ecosystem answers false up front; inside the loops over entries and ranges only the constant true is returned (a negative range never ends the evaluation); the events are sorted on a private copy and searched on that same slice for the package's version, both comparators put the sentinel \"0\" first and use the ecosystem comparison; an exact hit is affected iff the event is introduced/last_affected, a position between events iff a previous event exists and is introduced; index discipline proved with the BinarySearchFunc contract. Also: D6 the explicit-versions test exists, leads straight to a positive verdict and is evaluated under exactly the audited guards. Level 'other': necessary conditions of the OSV evaluation; agreement with the specification's linear scan on all event lists is not decided.",
   note="Trusted: go/ssa; slices.SortFunc/BinarySearchFunc/Clone contracts; deps.dev semver Compare.",
   technique="edge dominance over normalised comparisons + comparator-closure inspection + bounds prover",
   ref="DESIGN.md §3 C18")
 
 CLAIMS["C16"] = dict(
-  text="Lockset and spawn-site rules: the fields of RequestCache and CombinedNativeClient named in the frozen guarded-by table are accessed only with their mutex held on every path (must-hold dataflow over Lock/Unlock/defer), the scan-progress fields read by RunFS's status goroutine are written and (in that goroutine) read only under statusMu; RequestCache.Get tests for a cached and for a pending value and registers the new call in one critical section, calls the fetch function unlocked, signals the waiters, re-examines/removes the pending entry on every path after the fetch and caches only successes; goroutines spawned in a loop never get append(<shared slice>, ...); each spawn is paired with one counter increment, the worker sends exactly once, and the patch list returned is SortFunc then CompactFunc with the same comparator. Level 'other': necessary conditions for race-freedom and schedule-independence; linearizability and equality across schedules are not decided.",
+  text="Lockset and spawn-site rules: the fields of RequestCache and CombinedNativeClient named in the frozen guarded-by table are accessed only with their mutex held on every path (must-hold dataflow over Lock/Unlock/defer), the scan-progress fields read by RunFS's status goroutine are written and (in that goroutine) read only under statusMu; RequestCache.Get tests for a cached and for a pending value and registers the new call in one critical section, calls the fetch function unlocked, signals the waiters, re-examines/removes the pending entry on every path after the fetch and caches only successes; goroutines spawned in a loop never get append(<shared slice>, ...); each spawn is paired with one counter increment, the worker sends exactly once, and the patch list returned is SortFunc then CompactFunc with the same comparator. Also: D1 additionally: a map/slice reference loaded from a guarded field is used only while the mutex is still held. Level 'other': necessary conditions for race-freedom and schedule-independence; linearizability and equality across schedules are not decided.",
   note="Trusted: go/ssa, the guarded-by table in c16.go (confirmed by reading), sync.Mutex semantics; aliasing of mutex receivers is by access path.",
   technique="must-hold lockset dataflow, atomic-section path search, spawn-site argument freshness, pairing rules",
   ref="DESIGN.md §3 C16")
 
 CLAIMS["C13"] = dict(
-  text="Writer discipline: dependency names reach gjson/sjson paths only through gjson.Escape; index/slice expressions of the npm and maven manifest packages are proved in bounds or audited; in the package.json writer the next update (or success) is reachable only after an sjson.Set for the current update - decided path-sensitively over the per-update matched flag - and the buffer is modified only inside the update loop and is what gets written to the requested path; in the pom.xml writer origin strings are split, re-joined and suffix-trimmed with the '@' separator the origin builder uses, so patches are filed under origins the writer looks up. Level 'other': necessary conditions; byte/token preservation and re-read equality are not decided.",
+  text="Writer discipline: dependency names reach gjson/sjson paths only through gjson.Escape; index/slice expressions of the npm and maven manifest packages are proved in bounds or audited; in the package.json writer the next update (or success) is reachable only after an sjson.Set for the current update - decided path-sensitively over the per-update matched flag - and the buffer is modified only inside the update loop and is what gets written to the requested path; in the pom.xml writer origin strings are split, re-joined and suffix-trimmed with the '@' separator the origin builder uses, so patches are filed under origins the writer looks up. Also: D6 pom.xml: a section is marked as handled under the origin whose patches are applied to it; D7 package.json: an entry is rewritten only on the 'current value == original version' edge; D8 no Trim-family call with a computed cutset in the manifest writers. Level 'other': necessary conditions; byte/token preservation and re-read equality are not decided.",
   note="Trusted: go/ssa; gjson.Escape covers gjson/sjson path syntax; 7 audited index/slice sites with reasons in evidence.",
   technique="provenance of path arguments, path-sensitive must-pass search, bounds prover, separator agreement between origin builder and readers",
   ref="DESIGN.md §3 C13")
